@@ -17,6 +17,7 @@ META = dict(
     "nothing, honest must return self-consistent data and the reference accessory must have accepted M3 and M5 Plus, through the public discovery API of each transport (IpDiscovery / BleDiscovery / CoAPDiscovery on fake transports): every bounded history of {start, finish(right code), finish(wrong code), link loss at each transport operation of an attempt, restart} against a reference pair-setup service; the conformant accessory's verdict log is the oracle (an M3 built with the right code in a live exchange is accepted, what is returned was accepted and registered).",
     note="SRP/Ed25519/ChaCha20-Poly1305 strength outside the alphabet is assumed; one setup code/identity per tier row",
     design_ref="DESIGN.md §4 C03",
+    debug_pass="thorough",
     rule="a case = (config, decode style, fault, argument); distinct = distinct tuple; every case runs the full M1..M5 prefix on the real code",
     assumptions=["cryptography wheel primitives correct", "reference SRP validated against RFC 5054 app. B"],
 )
